@@ -46,7 +46,10 @@ type (
 		Body   SExpr
 	}
 	STypeLit struct{ Type string } // type[T]
-	SHeapLit struct{ Type string } // heap[T]
+	SHeapLit struct {
+		Type string
+		Maps bool
+	} // heap[T] / maps[map[K]V]
 )
 
 func (e *SIdent) String() string { return e.Name }
@@ -404,7 +407,7 @@ func (sp *specParser) primary() SExpr {
 			return &SBool{false}
 		case "nil":
 			return &SNil{}
-		case "type", "heap":
+		case "type", "heap", "maps":
 			if sp.isOp("[") {
 				sp.p++
 				start := sp.peek().pos
@@ -428,7 +431,10 @@ func (sp *specParser) primary() SExpr {
 				typ := strings.TrimSpace(sp.src[start:sp.peek().pos])
 				sp.p++
 				if t.text == "heap" {
-					return &SHeapLit{typ}
+					return &SHeapLit{Type: typ}
+				}
+				if t.text == "maps" {
+					return &SHeapLit{Type: typ, Maps: true}
 				}
 				return &STypeLit{typ}
 			}
